@@ -35,7 +35,7 @@ def all_cases(tier):
                 if light: continue
                 for mode in ("fan_in", "fan_out"):
                     for nl in NONLIN:
-                        for a in ((0, 0.2, math.sqrt(5.0)) if (nl == "leaky_relu" or (mode == "fan_in" and dt == "float32")) else (0,)):
+                        for a in ((0, 0.2, math.sqrt(5.0), -0.5, -3) if (nl == "leaky_relu" or (mode == "fan_in" and dt == "float32")) else (0,)):
                             out.append({"init": "kaiming_uniform_", "shape": list(s), "dtype": dt, "rg": rg, "args": {"a": a, "mode": mode, "nonlinearity": nl}})
                             out.append({"init": "kaiming_normal_", "shape": list(s), "dtype": dt, "rg": rg, "args": {"a": a, "mode": mode, "nonlinearity": nl}})
     # bounds / gains handed over as NumPy float64 scalars (np.sqrt(...) results): the tensor must keep its dtype
@@ -186,7 +186,7 @@ def run(tier, seed):
         extra = real_generator_check()
     cov = {"evaluations": r["evaluations"], "distinct_nontrivial": r["distinct_nontrivial"],
            "rule": "initialisers x shapes (rank 1-%d over {1,2,3}; rank >= 2 for fan-based) x gains {1,.5,5/3,sqrt2} x modes x 8 "
-                   "nonlinearities x slopes {0,.2,sqrt5} x dtypes x requires_grad; Linear/Conv1d/Conv2d constructors over a size "
+                   "nonlinearities x slopes {0,.2,sqrt5,-.5,-3} x dtypes x requires_grad; Linear/Conv1d/Conv2d constructors over a size "
                    "lattice; each under the scripted random source with u in {0,1,1/2}, z in {0,+1,-1} and mixed per-element "
                    "patterns, recovering bounds/mean/std exactly; non-trivial = tensor has >= 2 elements" % (4 if tier == "quick" else 5),
            "samples": r["samples"], "exhaustive": True, "outcomes": r["outcomes"]}
